@@ -282,6 +282,8 @@ Not decided: that the (min, max) handed to the selector is the true hull of the 
     }
     lub(m, ctx);
     literal(m, ctx);
+    // a DEFAULT the linker never visits keeps its unlinked literal (`fn d() -> Integer { 3 }`): the traversal analysis is C09.traverse
+    crate::rules::c09::traverse(m, ctx, "C06.traverse");
     named_first(m, ctx, "C06.named");
     unpack(m, ctx, "C06.unpack");
     signed_flag(m, ctx, "C06.signed");
